@@ -490,7 +490,7 @@ def r3(ctx, rep):
             status, term, recv_txt, detail = res[:4]
             key = f"hash:{owner['path']}:{recv_txt}:{term}"
             if len(res) > 4 and key not in seen:
-                sort_keys.append((key, res[4], r["file"], r["l"], owner["path"]))
+                sort_keys.append((key, res[4], r["file"], r["l"], owner["path"], r.get("recv") or r.get("self") or ""))
             if key in seen:
                 continue
             seen.add(key)
@@ -542,11 +542,16 @@ def r5(ctx, rep):
     for row_ in rev.values():
         if "key_expr" in row_:
             row_["key_expr"] = canon(row_["key_expr"])
-    for key, sk, file, line, owner in getattr(ctx, "_c11_sort_keys", []):
+    for key, sk, file, line, owner, recv in getattr(ctx, "_c11_sort_keys", []):
+        sk_raw = sk or ""
         sk = canon(sk)
         k2 = "sortkey:" + key[len("hash:"):]
         if sk == "<element>":
             rep.ok(k2, "sorts the elements themselves (total order)")
+            continue
+        # the key of a HashMap's own entries is unique by construction: `|x| x.0` / `|(k, _)| k` over (key, value) pairs needs no review
+        if "HashMap" in recv and (re.fullmatch(r"\|x\| ?[*&]?x\.0(\.clone\(\)|\.as_str\(\)|\.to_string\(\))?", sk or "") or re.fullmatch(r"\|\((\w+), _\w*\)\| ?[*&]?\1(\.clone\(\)|\.as_str\(\))?", sk_raw)):
+            rep.ok(k2, {"key": sk, "why": "the HashMap's own key (unique)"})
             continue
         row = rev.get(k2)
         if row is None:
